@@ -122,7 +122,7 @@ def padWidth (clusters : String → List String) (v : Verb) (fmted : String) : S
     let given := (clusters fmted).length
     if given ≥ v.width then fmted
     else
-      let pads := String.ofList (List.replicate (v.width - given) (if v.zero then '0' else ' '))
+      let pads := String.ofList (List.replicate (v.width - given) (if v.zero && !v.minus then '0' else ' '))
       if v.minus then fmted ++ pads else pads ++ fmted
 
 /-- the precision loop of `formatAppendString` (`if verb.HasPrec`): at most `prec` clusters -/
